@@ -161,10 +161,13 @@ const (
 	kindWrongG1
 	kindNonG1
 	kindMalformed
+	kindOffCurve    // clean header, x < p, x^3+4 is not a square
+	kindNonReduced  // clean header, x >= p
+	kindInfinityBad // infinity flag with a non-zero coordinate byte
 	nKinds
 )
 
-var kindName = []string{"share-of-other-signer", "other-valid-G1-point", "non-G1-s+T3", "malformed-header"}
+var kindName = []string{"share-of-other-signer", "other-valid-G1-point", "non-G1-s+T3", "malformed-header", "malformed-off-curve-x", "malformed-x>=p", "malformed-infinity-flag-on-nonzero"}
 
 // hashToG1 is H(m) under tag: the library's signature of m under the private key 1.
 func hashToG1(msg message) refbls.G1 {
@@ -373,6 +376,29 @@ func newContext(k *keygen, mi int, signers []int, variants bool) *context {
 			m := append([]byte{}, c.shares[i]...)
 			m[0] &^= refbls.FlagCompressed
 			c.bad[kindMalformed][i] = m
+			// x not on the curve: walk from the share's x until x^3+4 is a non-residue
+			x := new(big.Int).Set(c.sharePt[i].X)
+			for {
+				x.Add(x, big.NewInt(1))
+				if x.Cmp(refbls.P) >= 0 {
+					x.SetInt64(1)
+				}
+				if _, ok := refbls.G1FromX(x, false); !ok {
+					break
+				}
+			}
+			oc := x.FillBytes(make([]byte, 48))
+			oc[0] |= 0x80
+			c.bad[kindOffCurve][i] = oc
+			nr := bytes.Repeat([]byte{0xff}, 48)
+			nr[0] = 0x9f
+			c.bad[kindNonReduced][i] = nr
+			ib := append([]byte{}, c.shares[i]...)
+			ib[0] = 0xc0 | (ib[0] & 0x1f)
+			if bytes.Equal(ib[1:], make([]byte, 47)) && ib[0] == 0xc0 {
+				ib[47] = 1
+			}
+			c.bad[kindInfinityBad][i] = ib
 		}
 	}
 	return c
@@ -559,7 +585,7 @@ func invalidCase(c *context, order []int, pos, kd int, a *acc) {
 		switch {
 		case err != nil && !crypto.IsInvalidSignatureError(err):
 			run.Violation("c:stateless:"+kn+":unexpected-error-class", desc+": "+err.Error(), c.rep("c", "stateless", order, list, nil, note))
-		case kd == kindMalformed && err == nil:
+		case kd >= kindMalformed && err == nil:
 			run.Violation("c:stateless:malformed-share:accepted", desc, c.rep("c", "stateless", order, list, got, note))
 		case err == nil && !cancels && bytes.Equal(got, c.expected):
 			run.Violation("c:stateless:"+kn+":returned-the-valid-signature", desc, c.rep("c", "stateless", order, list, got, note))
@@ -1068,7 +1094,7 @@ func main() {
 	}
 	run.Set("rule", "(a) every (n,t), 2<=n<=maxN, 1<=t<n x 2 keygen seeds x 2 (message,tag) x every signer subset of size >= t+1 x orders (all permutations for size<=3; sorted, reversed, each rotation otherwise) x paths {BLSReconstructThresholdSignature, inspector+TrustedAdd, participant+VerifyAndAdd}; "+
 		"(b) n in {20,254}, t+1 in sizes_b, every (t+1)-subset of the index pool (12-element pool {0,1,6,7,8,9,14,15,16,17,n-2,n-1} for t+1<=10; a 12-element pool has no 16-subsets, so for t+1>=16 the pool is extended to 20 indices: all of 0..19 for n=20, {0,1,6,7,8,9,14,15,16,17,22,23,24,25,126,127,128,129,252,253} for n=254) in orders {sorted, reversed, rotated by 3}, stateless always, inspector+TrustedAdd on the sorted order; (b') n=254, t+1 in sizes_b_high, every (t+1)-subset of the high-index pools {242..253} and {0,1,244..253} (limb-overflow boundary: products of 8 indices near 254), same orders; "+
-		"(c) every case of (a) with n<=5 (thorough: n<=6) x every position x invalid share kinds {share of signer i+1, unrelated G1 point, share+T (T of order 3, outside G1), compression bit cleared} x the three paths; "+
+		"(c) every case of (a) with n<=5 (thorough: n<=6) x every position x invalid share kinds {share of signer i+1, unrelated G1 point, share+T (T of order 3, outside G1), compression bit cleared, x not on the curve, x >= p, infinity flag on a non-zero string} x the three paths; "+
 		"(d) per (n,t): exactly t shares, duplicate index at every ordered pair of positions, index -1/n/... at every position, size/threshold out of range, list-length mismatch, on the stateless API, the constructors, key generation and the stateful methods; "+
 		"(e) n=3,t=1: every call sequence of length t+3=4 over {TrustedAdd(i,kind), VerifyAndAdd(i,kind), HasShare(i), EnoughShares, ThresholdSignature} compared step by step with a sequential reference model. "+
 		"Expected bytes: big-integer Lagrange interpolation of the private shares read back from BLSThresholdKeyGen (every (t+1)-subset of the first t+3 shares gives one a0, all shares on one polynomial of degree <= t, pk_i = sk_i*g2, group key = a0*g2) and EncodeG1(a0*H(m)), H(m) = library signature under key 1. "+
